@@ -10,19 +10,30 @@ from vlib.common import Check, VERIF, hexs, run_model, unhex, unhexl
 import translate
 
 PID = "C05"
-FLAGS = re.M | re.I
+FLAGS = re.M | re.I   # replaced in run() by the flags the translator reads from the source AST (level patterns / channel pattern)
+CHAN_FLAGS = re.M | re.I
 PARTIAL = ("iosxe", "iosxr", "nxos", "nxosS", "eos", "eosS", "junos")          # must hold on the unchanged tree
-FULL = {"junosFull": "junos", "nxosFull": "nxos", "nxosSFull": "nxosS", "eosSFull": "eosS"}  # carry the findings' witnesses
+FULL = {"junosFull": "junos", "nxosFull": "nxos", "nxosSFull": "nxosS", "eosSFull": "eosS", "eosPFull": "eosP"}  # carry the findings' witnesses
+SESSION_TABLES = {"nxosS": "nxos", "eosS": "eos", "eosP": "eos"}
 PLATFORM = {"iosxe": "cisco_iosxe", "iosxr": "cisco_iosxr", "nxos": "cisco_nxos", "eos": "arista_eos", "junos": "juniper_junos"}
 
 
+def table_of_suite(suite):
+    return FULL.get(suite, suite)
+
+
 def base_of(suite):
-    s = FULL.get(suite, suite)
-    return s[:-1] if s.endswith("S") else s
+    t = table_of_suite(suite)
+    return SESSION_TABLES.get(t, t)
 
 
 def has_sessions(suite):
-    return FULL.get(suite, suite).endswith("S")
+    return table_of_suite(suite) in SESSION_TABLES
+
+
+def sessions_of(suite):
+    from gen import c05 as g
+    return g.SESSIONS.get(table_of_suite(suite), [])
 
 
 # ---------------------------------------------------------------- the real code
@@ -72,9 +83,8 @@ def real_get_prompt(suite, raw: bytes):
     from scrapli.driver import core as C
     cls = {"iosxe": C.IOSXEDriver, "iosxr": C.IOSXRDriver, "nxos": C.NXOSDriver, "eos": C.EOSDriver, "junos": C.JunosDriver}[base_of(suite)]
     conn = cls(host="sim", auth_bypass=True, timeout_ops=0, timeout_transport=0, auth_strict_key=False)
-    if has_sessions(suite):
-        for s in (g.EOS_SESSIONS if base_of(suite) == "eos" else g.NXOS_SESSIONS):
-            conn.register_configuration_session(session_name=s)
+    for s in sessions_of(suite):
+        conn.register_configuration_session(session_name=s)
     t = SimTransport(conn._base_transport_args, _PromptDevice(raw))
     attach(conn, t)
     t.open()
@@ -90,18 +100,38 @@ def _head(prompt: str) -> str:
     return re.split(r"[(#>%$]", line, maxsplit=1)[0]
 
 
+OPEN_IDS = None   # set in run(): ids of the findings that are still open (a fixed finding attributes nothing)
+
+
 def matcher(case):
+    """the first OPEN finding whose narrow predicate the failing case satisfies"""
+    for fid in _candidates(case):
+        if OPEN_IDS is None or fid in OPEN_IDS:
+            return fid
+    return None
+
+
+def _candidates(case):
     suite, mode, p = case.get("suite", ""), case.get("mode", ""), case.get("prompt", "")
     base = base_of(suite)
+    out = []
     if base == "junos" and mode in ("configuration", "shell") and "root" in p:
-        return "F12"
+        out.append("F12")
     if base == "nxos" and ((mode == "privilege_exec" and "-tcl" in _head(p)) or (mode == "configuration" and "config-" in _head(p))):
-        return "F24"
+        out.append("F24")
     if base == "nxos" and has_sessions(suite) and mode == "configuration" and re.search(r"\(config-s", p):
-        return "F25"
+        out.append("F25")
+    if base == "eos" and mode.startswith("session:"):
+        # the mode's own truncated name vs the truncated names of the OTHER registered sessions
+        mine = mode[len("session:"):]
+        others = {n[:6] for n in sessions_of(suite)} - {mine}
+        if any(o.lower() == mine.lower() for o in others):
+            out.append("F28")
+        if any(mine.lower().startswith(o.lower()) and o.lower() != mine.lower() for o in others):
+            out.append("F27")
     if base == "eos" and has_sessions(suite) and mode.startswith("session") and "_" in p.split("(config-s-")[0]:
-        return "F26"
-    return None
+        out.append("F26")
+    return out
 
 
 # ---------------------------------------------------------------- independent statement of the property (oracle)
@@ -152,6 +182,8 @@ def run(tier, seed):
     import regex2lean as R
     ck = Check(PID, tier, seed, level="proof")
     ck.findings += [f for f in json.load(open(VERIF / "findings" / "C05.json")) if not any(x["id"] == f["id"] for x in ck.findings)]
+    global OPEN_IDS
+    OPEN_IDS = {f["id"] for f in ck.findings if f.get("status") == "open"}
     ck.rule = ("DECISION: per platform table (generated from constructed real drivers, before and after register_configuration_session) and "
                "per device mode of Spec/PromptGrammar.lean, three regular-language emptiness obligations (detected / classified by the "
                "whole share group / by no other level), each a kernel-checked derivative-automaton certificate over the WHOLE grammar "
@@ -169,12 +201,16 @@ def run(tier, seed):
                       "which prefix of the read buffer get_prompt matches first is covered by C01/C02, here only on the sampled prompts"]
     # ---- 1 translate (tables + certificates)
     obs, suites = {}, {}
+    global FLAGS, CHAN_FLAGS
     try:
+        FLAGS, CHAN_FLAGS = g.classify_flags(), g.channel_flags()
+        ck.extra["regex_flags_read_from_source"] = {"_determine_current_priv": repr(re.RegexFlag(FLAGS)), "_get_prompt_pattern": repr(re.RegexFlag(CHAN_FLAGS))}
         translate.translate(PID)
         obs = g.certificates()
         suites = g.parse_suites(g.run_driver(["suites"])[0])
     except Exception as e:
         ck.proof_broken("translator gen/c05.py", repr(e))
+        probe_invalid_patterns(ck, g)
     # an obligation of a PARTIAL suite that is no longer empty: the explorer's shortest witness is the failing input
     failed_obs = []
     for name, info in obs.items():
@@ -189,8 +225,28 @@ def run(tier, seed):
     ck.prove("ScrapliProps.C05", lemma_files=lemma_files)
     # generated verdicts on the unrestricted grammars of the finding modes (refuted while the defect exists, proved after a fix)
     ck.prove("ScrapliProps.C05Full")
+    # accounting: an obligation is a kernel-checked theorem this run set out to establish.  Every generated obligation module
+    # counts once: a certificate module proves `empty`, a witness module (only in the `…Full` suites, i.e. the grammar WITHOUT
+    # the restriction of an open finding) proves `nonempty` — both are theorems, both were built by the `lake build` above.
+    # A partial-suite obligation that is no longer empty makes C05.lean fail to build => proof_broken => exit 1 (no silent gap).
+    built = not any(b[0] == "proof" for b in ck.broken)
     ck.obligations += len(obs)
-    ck.discharged += sum(1 for n, i in obs.items() if i["outcome"] == "cert") if not any(b[0] == "proof" for b in ck.broken) else 0
+    ck.discharged += len(obs) if built else 0
+    fid = {"junosFull": "F12", "nxosFull": "F24", "nxosSFull": "F25", "eosSFull": "F26", "eosPFull": "F27/F28"}
+    refuted = sorted({(fid.get(i["suite"], "?"), i["suite"], i["mode"], i["mode_index"]) for i in obs.values()
+                      if i["suite"] in FULL and i["outcome"] == "witness"})
+    ck.extra["full_statements_refuted_by_open_findings"] = [
+        {"finding": f, "suite": sn, "mode": m, "theorem": f"Scrapli.C05.{g.ob_name(sn, mi, m, 0)[:-4]}_full_refuted (ScrapliProps/C05Full.lean)",
+         "witness_prompts": sorted({bytes.fromhex(i["witness"]).decode("ascii", "replace") for i in obs.values()
+                                    if i["suite"] == sn and i["mode"] == m and i["witness"] not in (None, "-")})}
+        for f, sn, m, mi in refuted]
+    ck.notes.append("proof: every theorem of ScrapliProps/C05.lean, C05Full.lean and of the generated obligation modules re-checked by the kernel "
+                    "and audited; model tied to /repo by translator + correspondence")
+    if refuted:
+        ck.notes.append("the full-strength statement (grammar without a finding's restriction) is FALSE on this tree for "
+                        + ", ".join(f"{sn}/{m} ({f})" for f, sn, m, _ in refuted)
+                        + ": these are not proof obligations of this run; what is proved for them is the refutation (¬ ModeOK, from a "
+                          "machine-checked witness prompt) and ModeOK for the grammar restricted by the open finding's predicate")
     if tier == "thorough":
         ck.leanchecker("ScrapliProps.C05")
     if not suites:
@@ -242,7 +298,7 @@ def run(tier, seed):
             small = []
             if pat not in seen_pat:
                 seen_pat.add(pat)
-                reps = R.class_reps(R.translate_search(pat, FLAGS))
+                reps = R.class_reps(R.translate_search(pat, CHAN_FLAGS if which == "detect" else FLAGS))
                 L = maxlen if len(reps) <= 24 or tier == "thorough" else 2
                 if tier == "thorough" and len(reps) <= 9:
                     L = 4
@@ -299,8 +355,9 @@ def run(tier, seed):
                 ck.traces_validated += 1
         nr = 0
         for j, (sn, which, pat, w) in enumerate(render):
-            real = re.search(pat.encode(), w, FLAGS) is not None
-            if w.isascii() and (re.search(pat, w.decode(), FLAGS) is not None) != real:
+            fl = CHAN_FLAGS if which == "detect" else FLAGS
+            real = re.search(pat.encode(), w, fl) is not None
+            if w.isascii() and (re.search(pat, w.decode(), fl) is not None) != real:
                 ck.extra["str_vs_bytes_search_differs"] = ck.extra.get("str_vs_bytes_search_differs", 0) + 1
             if ("1" if real else "0") != mout[nclass + j]:
                 ck.disagree("regex rendering: Lean rmatch vs CPython re.search", {"suite": sn, "pattern": pat, "string_hex": hexs(w)},
@@ -341,6 +398,35 @@ def run(tier, seed):
                                     f"{maxlen} over each pattern's class representatives")
     ck.extra["programs"] = len(obs)
     return ck.finish()
+
+
+def probe_invalid_patterns(ck, g):
+    """directed search when the translator could not render a table: a privilege pattern that CPython's re itself cannot
+    compile is a concrete failure of the real code — every classification (and every get_prompt, through the joined
+    channel pattern) of that driver raises re.error.  The failing input is the session set + any prompt."""
+    try:
+        conns = g.drivers()
+    except Exception as e:   # construction / registration itself fails
+        ck.violation({"what": f"constructing the drivers / registering the sessions raised {e!r}"}, "driver construction failed", None)
+        return
+    for tname, conn, sessions in conns:
+        for lvl in conn.privilege_levels.values():
+            try:
+                re.compile(lvl.pattern, FLAGS)
+            except re.error as e:
+                prompt = "leaf1(config)#"
+                try:
+                    got = real_classify(conn, prompt)
+                    raised = None
+                except Exception as e2:   # noqa: BLE001 — re.error expected
+                    got, raised = None, repr(e2)
+                ck.case(("invalid-pattern", tname, lvl.name), nontrivial=True, tags=("invalid-pattern",))
+                ck.violation({"suite": tname, "mode": "configuration", "prompt": prompt, "sessions_for_invalid_pattern": sessions,
+                              "level": lvl.name, "pattern": lvl.pattern, "re_error": str(e), "classification": got, "raised": raised,
+                              "what": f"the pattern of level {lvl.name!r} is not a valid regular expression ({e}); "
+                                      f"_determine_current_priv({prompt!r}) raises {raised}"},
+                             "a privilege level pattern does not compile: every prompt classification raises re.error", None)
+                return
 
 
 def cache_cases(ck, g, have_model):
@@ -396,6 +482,15 @@ def replay(path):
         return 1
     from gen import c05 as g
     sn = v["suite"]
+    if "sessions_for_invalid_pattern" in v:
+        conn = real_conn(sn)
+        try:
+            got = real_classify(conn, v["prompt"])
+            print(f"suite {sn}: _determine_current_priv({v['prompt']!r}) = {got}")
+            return 0
+        except Exception as e:   # noqa: BLE001
+            print(f"suite {sn} (sessions {v['sessions_for_invalid_pattern']}): _determine_current_priv({v['prompt']!r}) raised {e!r}")
+            return 1
     if "sessions_registered" in v:   # stale-cache case: long-lived driver vs brand-new driver
         from scrapli.driver.core import EOSDriver, NXOSDriver
         cls = EOSDriver if base_of(sn) == "eos" else NXOSDriver
